@@ -38,7 +38,8 @@ class Ctx:
         if self.target and not keep:
             shutil.rmtree(self.target, ignore_errors=True)
         if not keep:
-            shutil.rmtree(os.path.join(WORK, 'replay'), ignore_errors=True)
+            from . import kani as _K
+            shutil.rmtree(_K.replay_dir(), ignore_errors=True)
 
     # ------------------------------------------------------------------ engine M
     def mir(self, tag='whirlpool', **kw):
